@@ -204,7 +204,7 @@ def generate(rng, tier, index):
                 items.append(b)
         if rng.random() < 0.6:
             items = [_escapeify(rng, it) for it in items]
-        plan = {"world": "H", "parsed": items}
+        plan = {"world": "H", "parsed": items, "esc_style": rng.choice([0, rng.randint(1, 10 ** 6), rng.randint(1, 10 ** 6)])}
     return plan
 
 
@@ -308,19 +308,35 @@ def model_dict(items):
     return d
 
 
-def esc(b: bytes) -> str:
+_ALT = {0x0A: "\\n", 0x0D: "\\r", 0x09: "\\t", 0x5C: "\\\\", 0x22: '\\"', 0x27: "\\'"}
+
+
+def esc(b: bytes, style: int = 0) -> str:
+    """Byte string -> profile string literal. style 0: \\xHH for everything that is not plain printable; other styles pick,
+    per byte, one of the equivalent spellings the profile language documents (\\n \\r \\t \\\\ \\" \\' \\u00HH, upper-case
+    hex, \\xHH for printable characters too)."""
     out = []
-    for c in b:
-        if 0x20 <= c <= 0x7E and c not in (0x22, 0x5C):
+    for i, c in enumerate(b):
+        h = (style * 131 + i * 7 + c) % 7 if style else 0
+        if style and c in _ALT and h < 4:
+            out.append(_ALT[c])
+        elif style and h == 4:
+            out.append("\\u00%02x" % c)
+        elif style and h == 5:
+            out.append("\\x%02X" % c)
+        elif 0x20 <= c <= 0x7E and c not in (0x22, 0x5C) and not (style and h == 6):
             out.append(chr(c))
         else:
             out.append("\\x%02x" % c)
     return '"' + "".join(out) + '"'
 
 
-def print_text(items) -> str:
+def print_text(items, style: int = 0) -> str:
     """Independent profile printer (for the parsed population and the semantic reparse check)."""
     out = []
+
+    def esc_(b):     # all byte arguments of this text use the plan's escape style
+        return esc(b, style)
 
     def q(s):
         return '"' + s + '"'
@@ -342,12 +358,12 @@ def print_text(items) -> str:
             elif k == "dt":
                 out.append(f"{pad}{it[1]} {{")
                 for s in it[2] + [it[3]]:
-                    out.append(f"{pad}  {s[0]}{(' ' + esc(unhx(s[1]))) if len(s) > 1 else ''};")
+                    out.append(f"{pad}  {s[0]}{(' ' + esc_(unhx(s[1]))) if len(s) > 1 else ''};")
                 out.append(f"{pad}}}")
             elif k == "exec":
                 out.append(f"{pad}execute {{")
                 for name, a in it[1]:
-                    out.append(f"{pad}  {name}{(' ' + esc(unhx(a))) if a is not None else ''};")
+                    out.append(f"{pad}  {name}{(' ' + esc_(unhx(a))) if a is not None else ''};")
                 out.append(f"{pad}}}")
             elif k == "gate":
                 out.append(f"{pad}beacon_gate {{")
@@ -357,7 +373,7 @@ def print_text(items) -> str:
             elif k == "xform86":
                 out.append(f"{pad}transform-x86 {{")
                 for name, a in it[1]:
-                    out.append(f"{pad}  {name} {esc(unhx(a))};")
+                    out.append(f"{pad}  {name} {esc_(unhx(a))};")
                 out.append(f"{pad}}}")
 
     for it in items:
@@ -403,7 +419,13 @@ def build_block(cp, alias, items, style):
             if k == "set":
                 b.set_option(it[1], it[2].encode() if len(it) > 3 else it[2])
             elif k == "pair":
-                b._pair(it[1], [(it[2], it[3])])
+                # the public spelling where the block class has one (HttpOptionsBlock.header/.parameter,
+                # HttpConfigBlock.header, ...strrep), the generic pair builder otherwise
+                fn = getattr(b, it[1], None)
+                if callable(fn) and (len(it[2]) + len(it[3])) % 2 == 0:
+                    fn(it[1], [(it[2], it[3])])
+                else:
+                    b._pair(it[1], [(it[2], it[3])])
             elif k == "block":
                 b.set_config_block(it[1], make(cp.HttpOptionsBlock, it[2], style, balias))
             elif k == "dt":
@@ -486,7 +508,7 @@ def execute(plan: dict) -> Result:
     res = Result()
     if "parsed" in plan:
         items = plan["parsed"]
-        text = print_text(items)
+        text = print_text(items, plan.get("esc_style", 0))
         want = model_dict(items)
         if any(len(it) > 3 for it in items):
             res.probes["variant_block"] += 1
